@@ -30,7 +30,9 @@ def _join_exprs(exprs):
         def get_count(name):
             return sum((1 if name == axis.name else 0) for axes2 in axes for axis in axes2)
 
-        first_axisnames = list({axes2[0].name for axes2 in axes if len(axes2) > 0})
+        # Deduplicate in order of first appearance (a set would make ties between equally frequent axes, and thereby the
+        # order of the joined axes, depend on the hash seed)
+        first_axisnames = list(dict.fromkeys(axes2[0].name for axes2 in axes if len(axes2) > 0))
         counts = [get_count(name) for name in first_axisnames]
         idx = np.argmax(counts)
         axisname = first_axisnames[idx]
